@@ -35,6 +35,7 @@ def main(tier, replay=None):
         objs, r = export(run, haps, prefix, n, maxchr, k)
         for o in objs:
             o["cls"] = f"{haps}-haplotype/{prefix}"
+            o["style"] = "plain" if haps == 1 else "hap"
         scen += objs
         exports.append({"haplotypes": haps, "prefix": prefix, "max_chromosomes": maxchr, "scenarios": len(objs), "model_states": r["distinct"],
                         "model_transitions": r["generated"], "wall_s": r["wall_s"]})
@@ -49,8 +50,10 @@ def main(tier, replay=None):
     for i, s in enumerate(scen, 1):
         s["tid"] = i
     traces = C.pmap("harness.remap_engine", "run_scenario", scen, chunk=200)
-    jr = R.judge(run, traces, ["C10"])
+    jr = R.judge(run, traces, ["C10", "MODEL"])
     n = C.report(run, "C10", jr["V"], {t["tid"]: t for t in traces})
+    for m in jr["M"][:5]:
+        print(f"MODEL-DRIFT action={m[2]} trace={m[1]} detail={m[3]}")
     status = {}
     for t in traces:
         status[t["status"] + (":" + t["msg"][:40] if t["status"] != "ok" else "")] = status.get(t["status"] + (":" + t["msg"][:40] if t["status"] != "ok" else ""), 0) + 1
@@ -67,7 +70,7 @@ def main(tier, replay=None):
                 "haplotigs each in any order inside the Pretext scaffold, name tags X/W/B1/Z, prefixes SUPER_ / CHR, unplaced scaffolds, one haplotype or the "
                 "two-haplotype grouping pattern with 0..2 homologues and Singleton tags; each executed by the real BuildAssembly with chromosome CSV; "
                 "non-trivial = more than one Pretext scaffold",
-        "exports": exports, "run_status": status, "chromosomes_per_scenario": dict(sorted(nchr.items())),
+        "exports": exports, "model_drift": len(jr["M"]), "model_conformant": len(jr["M"]) == 0, "run_status": status, "chromosomes_per_scenario": dict(sorted(nchr.items())),
         "chromosome_groups_judged": jr["N"].get("pieces_with_core", 0),
         "samples": [{k: smp[k] for k in ("prefix", "nhaps", "map", "status", "out", "csv") if k in smp}],
         "known_findings_seen": run.known,
